@@ -95,7 +95,8 @@ def r16_1(ctx):
         else:
             gs = [(n.key(t), p) for t, p in sc.path_guards(r)]
             # reachable only when expr does not depend on time and has no signals
-            ok = any("depends_on(%s,self.t)" % expr in k and p is False for k, p in gs)
+            want_t = n.key(ast.parse("depends_on(%s, self.t)" % expr, mode="eval").body)
+            ok = any(k == want_t and p is False for k, p in gs)
             ctx.check(ok, "Stage.der state-only form is used only for time-independent expressions", detail="partial derivative in time dropped", expected="else-branch of `depends_on(expr, self.t) or signals`",
                       found=str(gs), fi=f, node=r)
     ctx.check(len(full) == 1, "Stage.der has one general (time/signal dependent) form", detail="general form", expected="one jtimes with vertcat lists", found=str(len(full)), fi=f)
